@@ -273,7 +273,21 @@ _MORE9 = {
     'C17': '; fresh identifier per Morgan layer',
     'C18': '; strip-charset lint H15',
 }
-for _d in (_MORE78, _MORE9):
+_MORE10 = {
+    'C03': '; positional mapping list of postprocess_parsed_reaction (path walk)',
+    'C06': '; shared-bond threshold of _is_condensed_ring',
+    'C07': '; target numbers on the target in the stereo filters',
+    'C08': '; target numbers on the target in the stereo filters',
+    'C10': '; pack length computed before the cis/trans cursor moves',
+    'C11': '; RDF index lands on the header line (finding F23, fixed); 1-based bound of V2000 property lines',
+    'C13': '; shallow copy of a cached dict of containers (lint)',
+    'C14': '; charge roll-back threshold',
+    'C15': '; fragment index bound',
+    'C17': '; Morgan window radius of morgan_hash_smiles',
+    'C19': '; shallow copy of a cached dict of containers (lint)',
+    'C20': '; first exported conformer is the 2D layout',
+}
+for _d in (_MORE78, _MORE9, _MORE10):
   for _pid, _t in _d.items():
     if _pid in _MORE:
         _MORE[_pid] = (_MORE[_pid][0] + _t, _MORE[_pid][1])
